@@ -643,6 +643,8 @@ pub enum Piece {
     Num(String),
     /// a string repeated n times (length-boundary families)
     Rep(String, u32),
+    /// a dictionary key repeated n times (long texts: hundreds of morphemes, grown buffers)
+    RepKey(u16, u16),
 }
 
 pub fn to_fullwidth(s: &str) -> String {
@@ -712,6 +714,14 @@ pub fn render_pieces(keys: &[String], pieces: &[Piece]) -> String {
                     s.push_str(r);
                 }
             }
+            Piece::RepKey(i, n) => {
+                if !keys.is_empty() {
+                    let k = &keys[ix(*i, keys.len())];
+                    for _ in 0..*n {
+                        s.push_str(k);
+                    }
+                }
+            }
         }
     }
     s
@@ -728,6 +738,20 @@ pub fn piece() -> BoxedStrategy<Piece> {
         1 => "[0-9一二三十百千万,.０-９]{1,6}".prop_map(Piece::Num),
     ]
     .boxed()
+}
+
+/// like `piece`, with a small chance of a long repetition (texts of several hundred morphemes)
+pub fn piece_long() -> BoxedStrategy<Piece> {
+    prop_oneof![
+        60 => piece(),
+        1 => (any::<u16>(), 40u16..400).prop_map(|(i, n)| Piece::RepKey(i, n)),
+        1 => (select(vec!["あ。", "1,", "a ", "ｱﾞ", "㍿", "ーー京"]), 40u32..300).prop_map(|(s, n)| Piece::Rep(s.to_string(), n)),
+    ]
+    .boxed()
+}
+
+pub fn pieces_long(max: usize) -> BoxedStrategy<Vec<Piece>> {
+    vec(piece_long(), 0..=max).boxed()
 }
 
 pub fn pieces(max: usize) -> BoxedStrategy<Vec<Piece>> {
